@@ -61,6 +61,10 @@ pub struct State {
     /// the thread was granted a step that may park inside std
     pub may_block: Vec<bool>,
     pub watchdog: bool,
+    /// parked threads that are being held back ("sluggish": slow to react to their wake-up)
+    pub frozen: Vec<bool>,
+    /// offer the choice to hold a parked thread back (costs one deviation)
+    pub allow_freeze: bool,
 }
 
 pub struct Sched {
@@ -96,6 +100,8 @@ pub fn sched() -> &'static Arc<Sched> {
                 os_tid: vec![],
                 may_block: vec![],
                 watchdog: false,
+                frozen: vec![],
+                allow_freeze: false,
             }),
             cv: Condvar::new(),
         })
@@ -120,6 +126,12 @@ pub fn begin(tape: Tape, n: usize) {
     s.os_tid = vec![0; n];
     s.os_tid[0] = unsafe { libc::gettid() };
     s.may_block = vec![false; n];
+    s.frozen = vec![false; n];
+    for i in 0..MAX_T {
+        FROZEN[i].store(false, std::sync::atomic::Ordering::SeqCst);
+        OS_TIDS[i].store(0, std::sync::atomic::Ordering::SeqCst);
+    }
+    OS_TIDS[0].store(s.os_tid[0], std::sync::atomic::Ordering::SeqCst);
     s.current = 0;
     s.tape = tape;
     s.steps = 0;
@@ -173,7 +185,9 @@ fn enabled(s: &State, i: usize) -> bool {
         Status::Runnable | Status::Running => true,
         Status::BlockedEpoll(fd) => fd_readable(fd),
         Status::BlockedFlag(ref f) => f.load(std::sync::atomic::Ordering::SeqCst),
-        Status::Starting | Status::Finished | Status::BlockedStd => false,
+        // a held-back thread can be released: that is an enabled (pseudo) step
+        Status::BlockedStd => s.frozen[i],
+        Status::Starting | Status::Finished => false,
     }
 }
 
@@ -197,8 +211,82 @@ fn pick(s: &mut State, me: usize) -> Option<usize> {
     Some(order[c as usize])
 }
 
+const MAX_T: usize = 8;
+static FROZEN: [std::sync::atomic::AtomicBool; MAX_T] = [const { std::sync::atomic::AtomicBool::new(false) }; MAX_T];
+static IN_HANDLER: [std::sync::atomic::AtomicBool; MAX_T] = [const { std::sync::atomic::AtomicBool::new(false) }; MAX_T];
+static OS_TIDS: [std::sync::atomic::AtomicI32; MAX_T] = [const { std::sync::atomic::AtomicI32::new(0) }; MAX_T];
+
+/// SIGUSR2 handler: holds the interrupted thread here for as long as it is marked frozen.
+/// Only async-signal-safe operations: gettid, atomics, nanosleep.
+extern "C" fn freeze_handler(_sig: libc::c_int) {
+    use std::sync::atomic::Ordering::SeqCst;
+    let me = unsafe { libc::syscall(libc::SYS_gettid) } as i32;
+    for i in 0..MAX_T {
+        if OS_TIDS[i].load(SeqCst) == me {
+            IN_HANDLER[i].store(true, SeqCst);
+            while FROZEN[i].load(SeqCst) {
+                let ts = libc::timespec { tv_sec: 0, tv_nsec: 30_000 };
+                unsafe { libc::nanosleep(&ts, std::ptr::null_mut()) };
+            }
+            IN_HANDLER[i].store(false, SeqCst);
+            return;
+        }
+    }
+}
+
+fn freeze(s: &mut State, i: usize) {
+    use std::sync::atomic::Ordering::SeqCst;
+    s.frozen[i] = true;
+    FROZEN[i].store(true, SeqCst);
+    unsafe { libc::syscall(libc::SYS_tgkill, libc::getpid(), s.os_tid[i], libc::SIGUSR2) };
+    // the thread must be inside the handler before anybody can wake it up
+    let t0 = std::time::Instant::now();
+    while !IN_HANDLER[i].load(SeqCst) && t0.elapsed() < Duration::from_millis(200) {
+        std::thread::sleep(Duration::from_micros(20));
+    }
+    s.trace.push((i as u8, "held-back"));
+}
+
+/// Release a held-back thread and wait until it has left the handler.
+fn thaw(mut s: MutexGuard<'static, State>, i: usize) -> MutexGuard<'static, State> {
+    use std::sync::atomic::Ordering::SeqCst;
+    s.frozen[i] = false;
+    FROZEN[i].store(false, SeqCst);
+    s.trace.push((i as u8, "released"));
+    drop(s);
+    let t0 = std::time::Instant::now();
+    while IN_HANDLER[i].load(SeqCst) && t0.elapsed() < Duration::from_millis(200) {
+        std::thread::sleep(Duration::from_micros(20));
+    }
+    // give it the time to either go on or park again, then settle
+    std::thread::sleep(Duration::from_micros(60));
+    settle(lock())
+}
+
+/// pick() that also performs "release a held-back thread" pseudo-steps until a real thread is chosen.
+fn choose_next(mut s: MutexGuard<'static, State>, me: usize) -> (MutexGuard<'static, State>, Option<usize>) {
+    loop {
+        match pick(&mut s, me) {
+            None => return (s, None),
+            Some(i) if s.frozen[i] => {
+                s = thaw(s, i);
+                if s.over {
+                    return (s, None);
+                }
+            }
+            Some(i) => return (s, Some(i)),
+        }
+    }
+}
+
 fn finish_execution(s: &mut State) {
     s.over = true;
+    for i in 0..s.frozen.len() {
+        if s.frozen[i] {
+            s.frozen[i] = false;
+            FROZEN[i].store(false, std::sync::atomic::Ordering::SeqCst);
+        }
+    }
     s.blocked_at_end = (0..s.threads.len())
         .filter(|&i| matches!(s.threads[i], Status::BlockedEpoll(_) | Status::BlockedFlag(_) | Status::BlockedStd))
         .collect();
@@ -224,7 +312,7 @@ fn settle(mut s: MutexGuard<'static, State>) -> MutexGuard<'static, State> {
         return s;
     }
     loop {
-        let pending: Vec<usize> = (0..s.threads.len()).filter(|&i| matches!(s.threads[i], Status::BlockedStd)).collect();
+        let pending: Vec<usize> = (0..s.threads.len()).filter(|&i| matches!(s.threads[i], Status::BlockedStd) && !s.frozen[i]).collect();
         if pending.is_empty() || s.over {
             return s;
         }
@@ -249,6 +337,14 @@ pub fn start_watchdog() {
             return;
         }
         s.watchdog = true;
+        s.allow_freeze = true;
+    }
+    unsafe {
+        let mut sa: libc::sigaction = std::mem::zeroed();
+        sa.sa_sigaction = freeze_handler as usize;
+        libc::sigemptyset(&mut sa.sa_mask);
+        sa.sa_flags = libc::SA_RESTART;
+        libc::sigaction(libc::SIGUSR2, &sa, std::ptr::null_mut());
     }
     std::thread::spawn(|| loop {
         std::thread::sleep(Duration::from_micros(60));
@@ -278,8 +374,18 @@ pub fn start_watchdog() {
         s.threads[cur] = Status::BlockedStd;
         s.trace.push((cur as u8, "parked"));
         s.steps += 1;
-        match pick(&mut s, cur) {
-            None => finish_execution(&mut s),
+        // deviation: the parked thread is slow to react to its wake-up (held back until released)
+        if s.allow_freeze && s.tape.choose(2, Kind::Dev) == 1 {
+            freeze(&mut s, cur);
+        }
+        let (s2, choice) = choose_next(s, cur);
+        s = s2;
+        match choice {
+            None => {
+                if !s.over {
+                    finish_execution(&mut s)
+                }
+            }
             Some(next) => {
                 s.switches += 1;
                 s.current = next;
@@ -299,9 +405,13 @@ fn yield_from(s: MutexGuard<'static, State>, me: usize, label: &'static str) {
         finish_execution(&mut s);
         return;
     }
-    match pick(&mut s, me) {
+    let (s2, choice) = choose_next(s, me);
+    s = s2;
+    match choice {
         None => {
-            finish_execution(&mut s);
+            if !s.over {
+                finish_execution(&mut s);
+            }
             return;
         }
         Some(next) => {
@@ -402,6 +512,9 @@ pub fn spawn<F: FnOnce() + Send + 'static>(tid: usize, f: F) -> std::thread::Joi
         {
             let mut s = lock();
             s.os_tid[tid] = unsafe { libc::gettid() };
+            if tid < MAX_T {
+                OS_TIDS[tid].store(s.os_tid[tid], std::sync::atomic::Ordering::SeqCst);
+            }
             s.threads[tid] = Status::Runnable;
             sched().cv.notify_all();
             while s.current != tid && !s.over {
@@ -437,8 +550,14 @@ fn finish_thread(me: usize) {
     }
     let mut s = settle(s);
     s.steps += 1;
-    match pick(&mut s, me) {
-        None => finish_execution(&mut s),
+    let (s2, choice) = choose_next(s, me);
+    s = s2;
+    match choice {
+        None => {
+            if !s.over {
+                finish_execution(&mut s)
+            }
+        }
         Some(next) => {
             s.switches += 1;
             s.current = next;
@@ -457,8 +576,14 @@ pub fn main_done() {
     s.threads[0] = Status::Finished;
     let mut s = settle(s);
     s.steps += 1;
-    match pick(&mut s, 0) {
-        None => finish_execution(&mut s),
+    let (s2, choice) = choose_next(s, 0);
+    s = s2;
+    match choice {
+        None => {
+            if !s.over {
+                finish_execution(&mut s)
+            }
+        }
         Some(next) => {
             s.switches += 1;
             s.current = next;
